@@ -38,3 +38,4 @@ func vRecordBool(label string, v bool)                    {}
 func vRecordU64(label string, v uint64)                   {}
 func vRecordString(label string, v string)                {}
 func vRecordBytes(label string, v []byte)                 {}
+func vAddrSpelling(site string, addr string) string       { return addr }
